@@ -118,7 +118,7 @@ def applyDirs (h ph : Heap) (c : Ctx) (stream : It) : List Dir → Except Err (C
       -- MatchDirective.__call__: `ctxt._match_templates.append((test, path, list(stream), hints, ns, directives))`
       match remaining h ph stream with
       | none => .error .unmodelled
-      | some body => .ok ({ c with mts := c.mts ++ [⟨name, body, once, rest⟩] }, .lst [])
+      | some body => .ok ({ c with mts := c.mts ++ [⟨name, body, once, rest, false⟩] }, .lst [])
     | _ => .error .unmodelled
 
 /-! ## directive generators -/
@@ -517,14 +517,15 @@ def findMatchFrom (name : Str) (start : Nat) (end_ : Option Nat) : Nat → List 
   | _, [] => none
   | idx, mt :: rest =>
     let inRange := start ≤ idx && (match end_ with | some e => idx < e | none => true)
-    if inRange && mt.name = name then some (idx, mt) else findMatchFrom name start end_ (idx + 1) rest
+    if inRange && !mt.retired && mt.name = name then some (idx, mt) else findMatchFrom name start end_ (idx + 1) rest
 
 def findMatch (mts : List MatchT) (start : Nat) (end_ : Option Nat) (name : Str) : Option (Nat × MatchT) :=
   findMatchFrom name start end_ 0 mts
 
-/-- `if 'match_once' in hints: del match_templates[idx]; idx -= 1`; returns the list and `idx + 1` -/
+/-- `if 'match_once' in hints: match_templates[idx] = (_retired,) + match_templates[idx][1:]`; the slot
+    stays, so `pre_end = idx + 1` either way; returns the list and `idx + 1` -/
 def afterOnce (mts : List MatchT) (idx : Nat) (mt : MatchT) : List MatchT × Nat :=
-  if mt.once then (mts.eraseIdx idx, idx) else (mts, idx + 1)
+  if mt.once then (mts.set idx { mt with retired := true }, idx + 1) else (mts, idx + 1)
 
 structure CRes where
   h : Heap
@@ -563,24 +564,24 @@ mutual
               match applyDirs c.h c.st.ph c.st.ctx (.lst mt.body) mt.rest with
               | .error e => ⟨c.h, c.st, c.src, c.stack, some e⟩
               | .ok (c2, it) =>
-                let b := runBody v fuel c.h { c.st with ctx := c2 } [it] pe2
+                let b := runBody v fuel c.h { c.st with ctx := c2 } [it] pe2 (some preEnd)
                 match b.err with
                 | some e => ⟨b.h, b.st, c.src, c.stack, some e⟩
                 | none => consume v fuel b.h b.st c.src c.stack start preEnd depth
         | .ev _ => consume v fuel r.h r.st r.src r.stack start preEnd depth
 
-  /-- `self._match(self._flatten(template, …), ctxt, start=idx+1)` driven to its end, events dropped -/
-  def runBody (v : Variant) : Nat → Heap → St → List It → Nat → CRes
-    | 0, h, st, stack, _ => ⟨h, st, .none, stack, some .fuel⟩
-    | fuel + 1, h, st, stack, start =>
+  /-- `self._match(self._flatten(template, …), ctxt, start=idx+1, end=end)` driven to its end, events dropped -/
+  def runBody (v : Variant) : Nat → Heap → St → List It → Nat → Option Nat → CRes
+    | 0, h, st, stack, _, _ => ⟨h, st, .none, stack, some .fuel⟩
+    | fuel + 1, h, st, stack, start, end_ =>
       let r := flat v fuel h st .none stack
       match r.out with
       | .done => ⟨r.h, r.st, .none, r.stack, none⟩
       | .err e => ⟨r.h, r.st, .none, r.stack, some e⟩
       | .incl _ _ => ⟨r.h, r.st, .none, r.stack, some .unmodelled⟩
       | .ev (.start tag _) =>
-        match findMatch r.st.ctx.mts start none tag.loc with
-        | none => runBody v fuel r.h r.st r.stack start
+        match findMatch r.st.ctx.mts start end_ tag.loc with
+        | none => runBody v fuel r.h r.st r.stack start end_
         | some (idx, mt) =>
           let (mts', pe2) := afterOnce r.st.ctx.mts idx mt
           let st1 : St := { r.st with ctx := { r.st.ctx with mts := mts' } }
@@ -591,11 +592,11 @@ mutual
             match applyDirs c.h c.st.ph c.st.ctx (.lst mt.body) mt.rest with
             | .error e => ⟨c.h, c.st, .none, c.stack, some e⟩
             | .ok (c2, it) =>
-              let b := runBody v fuel c.h { c.st with ctx := c2 } [it] pe2
+              let b := runBody v fuel c.h { c.st with ctx := c2 } [it] pe2 end_
               match b.err with
               | some e => ⟨b.h, b.st, .none, c.stack, some e⟩
-              | none => runBody v fuel b.h b.st c.stack start
-      | .ev _ => runBody v fuel r.h r.st r.stack start
+              | none => runBody v fuel b.h b.st c.stack start end_
+      | .ev _ => runBody v fuel r.h r.st r.stack start end_
 end
 
 inductive MOut where
